@@ -1105,6 +1105,14 @@ def section_illposed():
     H1o = sympy.Matrix([[0, aq + _Dg(aq)], [aq + _Dg(aq), 0]])
     expect("operator-valued mask that is not adjoint-symmetric in Hermitian mode", (ValueError,),
            lambda: block_diagonalize([H0o, H1o], fully_diagonalize=sympy.Matrix([[0, aq], [aq, 0]]))[0][0, 0, 1])
+    # ... and must not select a number-conserving term of a diagonal element (it couples a level to itself, like a True on the diagonal of a numeric mask)
+    for lab_, m_ in (("N_a", _Dg(aq) * aq), ("N_a + a + a^+", _Dg(aq) * aq + aq + _Dg(aq)), ("a constant", sympy.S.One), ("N_a in a 2x2 block", sympy.Matrix([[_Dg(aq) * aq, aq], [_Dg(aq), 0]]))):
+        if isinstance(m_, sympy.MatrixBase):
+            th_ = lambda m_=m_: block_diagonalize([H0o, H1o], fully_diagonalize=m_)[0][0, 0, 2]
+        else:
+            th_ = lambda m_=m_: block_diagonalize([wq_ * _Dg(aq) * aq, xq * (aq + _Dg(aq) + _Dg(aq) * aq)], symbols=[xq], fully_diagonalize={0: m_})[0][0, 0, 1]
+        wq_ = sympy.Symbol("omega_m", positive=True)
+        expect(f"operator-valued mask selecting a number-conserving diagonal term ({lab_})", (ValueError,), th_)
     # second-quantized problems: levels of equal (operator-valued) unperturbed energy coupled by the perturbation
     bq = _Bos("b")
     wq, gq = sympy.symbols("omega_q g_q", positive=True)
@@ -1130,6 +1138,10 @@ def section_illposed():
     x = sympy.Symbol("x", real=True)
     Hs = sympy.Matrix([[0, x], [2 * x, 1]])
     expect("symbolic non-Hermitian input in Hermitian mode", (ValueError,), lambda: block_diagonalize(Hs, symbols=[x], subspace_indices=[0, 1])[0][0, 0, 2])
+    # ... in every container format (list, dictionary with order tuples / monomial keys, mutable and immutable matrices)
+    H0s, H1s = sympy.diag(0, 1), sympy.Matrix([[0, 1], [2, 0]])
+    for lab_, ham_ in (("list", [H0s, H1s]), ("dict, order tuples", {(0,): H0s, (1,): H1s}), ("dict, monomial keys", {sympy.S.One: H0s, x: H1s}), ("list, immutable matrices", [H0s.as_immutable(), H1s.as_immutable()])):
+        expect(f"symbolic non-Hermitian term in Hermitian mode ({lab_})", (ValueError,), lambda ham_=ham_: block_diagonalize(ham_, subspace_indices=[0, 1])[0][0, 0, 2])
     # zero diagonal
     expect("zero unperturbed Hamiltonian", (ValueError,), lambda: block_diagonalize([np.zeros((2, 2)), herm(2, False)], subspace_indices=[0, 1]))
     # finiteness on accepted problems (incl. near-degenerate kept pairs, sparse)
